@@ -5,6 +5,8 @@ import (
 	"fmt"
 	"sort"
 	"strings"
+	"testing/fstest"
+	"time"
 
 	"github.com/titpetric/vuego"
 	"golang.org/x/net/html"
@@ -70,6 +72,10 @@ var c16Files = Files{
 	"p_prevonce.vuego":              `<div v-for="i in three"><script v-once v-pre>QA</script><b v-pre v-once>QB</b></div><template include="pv_c.vuego"></template><template include="pv_c.vuego"></template>`,
 	"pv_c.vuego":                    `<style v-pre v-once>QC</style><i>c</i>`,
 	"p_top.vuego":                   `<b v-once>O1</b><p>x</p><b v-once>O2</b><b v-once>O3</b>`,
+	// a component without v-once elements that is edited (see "editrow") into one with two of them
+	"p_row.vuego": `<ul><li v-for="i in three"><template include="row.vuego"></template></li></ul><template include="row2.vuego"></template>`,
+	"row.vuego":   `<b>r</b>`,
+	"row2.vuego":  `<i>r2</i>`,
 	// renders that fail after they have passed v-once elements (of the page, of components other pages include too)
 	"p_failinc.vuego":          `<b v-once>O1</b><template include="a.vuego"></template><template include="b.vuego"></template><div v-for="i in three"><u v-once>O2</u></div><template include="no_such_file.vuego"></template>`,
 	"p_failtop.vuego":          `<b v-once>O1</b><p>x</p><b v-once>O2</b><template include="ac.vuego"></template><p>{{ t | nosuchfilter }}</p><b v-once>O3</b>`,
@@ -125,6 +131,8 @@ var c16Progs = []c16Prog{
 	{"upper", "p_upper.vuego", map[string]int{"UA": 1, "UB": 1, "UC": 1, "UD": 1}, nil, "", nil},     // attribute names are case-insensitive
 	{"prevonce", "p_prevonce.vuego", map[string]int{"QA": 1, "QB": 1, "QC": 1}, nil, "", nil},        // v-pre keeps the content as written; the element is still emitted once
 	{"lay", "p_lay.vuego", map[string]int{"O1": 1, "OA": 1}, map[string]int{"OL": 1, "OL2": 1, "OO": 1, "OA": 2}, "", nil},
+	{"row", "p_row.vuego", map[string]int{}, nil, "", nil},     // (after "editrow": RA, RB, RC once each)
+	{"editrow", "p_row.vuego", map[string]int{}, nil, "", nil}, // rendered like "row", then the two components are replaced by versions with v-once elements
 	{"failinc", "p_failinc.vuego", map[string]int{}, nil, "", nil},
 	{"failtop", "p_failtop.vuego", map[string]int{}, nil, "", nil},
 }
@@ -148,7 +156,7 @@ type c16Case struct {
 
 func (c *c16Case) Key() string { return core.KeyOf(c) }
 
-var c16Markers = []string{"QA", "QB", "QC", "UA", "UB", "UC", "UD", "PA", "PB", "PC", "PD", "BF", "BN", "LC", "LD", "LE", "LF", "LG", "M01", "M02", "M03", "M04", "M05", "M06", "M07", "M08", "M09", "M10", "M11", "M12", "N01", "N02", "N03", "N04", "N05", "N06", "N07", "N08", "N09", "N10", "N11", "OX", "OY", "OZ2", "OZ", "OG", "OH", "OK", "OR", "OL1", "OL2", "OL3", "OL4", "OE2", "OE", "OF", "OI", "LA", "LB", "OT", "OU", "OW", "ON", "N1W", "N1S", "N2W", "N2S", "O1", "O2", "O3", "OA", "OB2", "OB", "OC", "OAC", "OS", "OL2", "OL", "OO"}
+var c16Markers = []string{"QA", "QB", "QC", "UA", "UB", "UC", "UD", "PA", "PB", "PC", "PD", "BF", "BN", "LC", "LD", "LE", "LF", "LG", "M01", "M02", "M03", "M04", "M05", "M06", "M07", "M08", "M09", "M10", "M11", "M12", "N01", "N02", "N03", "N04", "N05", "N06", "N07", "N08", "N09", "N10", "N11", "OX", "OY", "OZ2", "OZ", "OG", "OH", "OK", "OR", "OL1", "OL2", "OL3", "OL4", "OE2", "OE", "OF", "OI", "LA", "LB", "OT", "OU", "OW", "ON", "N1W", "N1S", "N2W", "N2S", "O1", "O2", "O3", "OA", "OB2", "OB", "OC", "OAC", "OS", "OL2", "OL", "OO", "RA", "RB", "RC"}
 
 // c16Proc is registered on every engine: its pre-processing step marks elements of class "auto"
 // with v-once (a processor that de-duplicates injected assets would do this).
@@ -191,11 +199,24 @@ func c16Count(out string) map[string]int {
 func (c *c16Case) Run(ctx *core.Ctx) {
 	ctx.NonTrivial()
 	data := map[string]any{"three": []int{0, 1, 2}, "t": true, "none": []int{}}
-	tpl := vuego.NewFS(c16Files.FS(), vuego.WithProcessor(c16Proc{}))
-	vue := vuego.NewVue(c16Files.FS())
+	fsT, fsV := c16Files.FS(), c16Files.FS()
+	tpl := vuego.NewFS(fsT, vuego.WithProcessor(c16Proc{}))
+	vue := vuego.NewVue(fsV)
 	vue.RegisterNodeProcessor(c16Proc{})
+	rowEdited := false
 	for i, name := range c.Seq {
 		p := c16Prog_(name)
+		editRow := func() {
+			if name != "editrow" {
+				return
+			}
+			// after its render: the components get v-once elements (a later modification time: the engines must notice)
+			for _, m := range []fstest.MapFS{fsT, fsV} {
+				m["row.vuego"] = &fstest.MapFile{Data: []byte(`<style v-once>RA</style><b>r</b><script v-once>RB</script>`), ModTime: baseTime.Add(time.Hour), Mode: 0o644}
+				m["row2.vuego"] = &fstest.MapFile{Data: []byte(`<i>r2</i><u v-once>RC</u>`), ModTime: baseTime.Add(time.Hour), Mode: 0o644}
+			}
+			rowEdited = true
+		}
 		var buf bytes.Buffer
 		var err error
 		src := stripFM(c16Files[p.Page])
@@ -244,6 +265,9 @@ func (c *c16Case) Run(ctx *core.Ctx) {
 		for k, v := range p.Want {
 			want[k] = v
 		}
+		if (name == "row" || name == "editrow") && rowEdited {
+			want["RA"], want["RB"], want["RC"] = 1, 1, 1
+		}
 		if p.StrSrc != "" && (c.Entry == "string" || c.Entry == "byte" || c.Entry == "reader") {
 			want = map[string]int{}
 			for k, v := range p.StrWant {
@@ -270,6 +294,7 @@ func (c *c16Case) Run(ctx *core.Ctx) {
 		sort.Strings(bad)
 		ctx.Outcome(p.Name + c.Entry + strings.Join(bad, ","))
 		ctx.State(1)
+		editRow()
 	}
 }
 
@@ -277,7 +302,7 @@ func init() {
 	core.Register(&core.Check{
 		ID:    "C16",
 		Level: "model_checking",
-		Rule: "36 programs: 34 placements of 1-4 v-once elements (v-once nested inside v-once at top level, in a loop and in two components included from a loop, in a component whose root is a <template> tag (inside, on and after it), on v-else / v-else-if members and on the v-else of an empty v-for inside a loop, together with v-if, together with v-for and a v-if that is false for the first item, on chain members that are loops themselves, in slot content a page hands to its layout (one and two slot templates), top level, inside v-for, on the looped element itself, in a component included 1..3 times, in two different components, in two components whose files have the same name in different directories, in a component included from a loop, nested components, slot content used once / twice / in a loop, v-if branches, page + two layouts each including the same component, twelve v-once elements in one file (IDs of more than one digit), a string template rendered on a template object that has loaded the very file the string includes, v-once together with v-pre (in a loop, in a component included twice), the directive spelled in capitals (V-ONCE, v-Once) in two components, elements a node processor marks v-once in its pre-processing step (the page's nodes: components are not pre-processed)), and two pages whose render fails - a missing include, an unknown filter - after v-once elements of the page and of shared components have been passed, x 7 entry points (Load+Render, RenderFile, Vue.Render, Vue.RenderFragment, RenderString/Byte/Reader) x every history of <=L renders on one long-lived engine; " +
+		Rule: "38 programs: 34 placements of 1-4 v-once elements (v-once nested inside v-once at top level, in a loop and in two components included from a loop, in a component whose root is a <template> tag (inside, on and after it), on v-else / v-else-if members and on the v-else of an empty v-for inside a loop, together with v-if, together with v-for and a v-if that is false for the first item, on chain members that are loops themselves, in slot content a page hands to its layout (one and two slot templates), top level, inside v-for, on the looped element itself, in a component included 1..3 times, in two different components, in two components whose files have the same name in different directories, in a component included from a loop, nested components, slot content used once / twice / in a loop, v-if branches, page + two layouts each including the same component, twelve v-once elements in one file (IDs of more than one digit), a string template rendered on a template object that has loaded the very file the string includes, v-once together with v-pre (in a loop, in a component included twice), the directive spelled in capitals (V-ONCE, v-Once) in two components, elements a node processor marks v-once in its pre-processing step (the page's nodes: components are not pre-processed)), and two pages whose render fails - a missing include, an unknown filter - after v-once elements of the page and of shared components have been passed, and a page whose two components have no v-once elements until an edit operation (part of the histories) replaces them by versions with two and one, x 7 entry points (Load+Render, RenderFile, Vue.Render, Vue.RenderFragment, RenderString/Byte/Reader) x every history of <=L renders on one long-lived engine; " +
 			"oracle: every marked source element occurs exactly once per render (per link of a layout chain), unreached ones zero times. states = renders checked; non-trivial = all",
 		Bounds:      map[string]string{"quick": "L=2 (all ordered pairs of programs)", "thorough": "L=3 (all ordered triples)"},
 		Assumptions: []string{"markers are counted textually as >MARK< in the output"},
